@@ -37,9 +37,13 @@ Scalars == {[id |-> x, kind |-> "scalar"] : x \in {"num:int:192", "num:float64:9
 Containers == Base \cup Ptrs \cup Nils \cup Scalars
 Desc(id) == CHOOSE d \in Containers : d.id = id
 
+HostKey(id) == [t |-> "go", id |-> id]
 Keys == << SB("a"), SB("zz"), SB("1"), SB(""), IntV(0), IntV(1), IntV(2), IntV(3), IntV(8), IntV(0 - 1), Num(96), Bool(TRUE), Bool(FALSE), Null,
            SB("Name"), SB("Age"), SB("Tags"), SB("Inner"), SB("secret"), SB("Greet"), SB("Nothing"), SB("Two"), SB("Sum"), SB("Rename"),
-           SB("Self"), SB("hidden"), SB("Nope"), SB("k"), IntV(1000000), SB("Wait"), SB("Level"), IntV(300) >>
+           SB("Self"), SB("hidden"), SB("Nope"), SB("k"), IntV(1000000), SB("Wait"), SB("Level"), IntV(300),
+           (* host numbers far outside the window: no container has them as a key or index; the lookup is an error, never a panic *)
+           HostKey("huge:1e19"), HostKey("huge:-1e19"), HostKey("huge:1e300"), HostKey("huge:inf"), HostKey("huge:-inf"), HostKey("huge:nan"),
+           HostKey("big:uint64:max"), HostKey("big:int64:min"), HostKey("big:int64:max"), SB("1e30"), SB("Inf"), SB("-1e30"), SB("NaN") >>
 ArgLists == << <<>>, <<SB("hi")>>, <<IntV(1)>>, <<IntV(1), IntV(2)>>, <<SB("a"), SB("b")>>, <<Null>>, <<Bool(TRUE)>>, <<SB("a"), IntV(2), IntV(3)>> >>
 
 Elem(v) == [r |-> "elem", v |-> v]
